@@ -576,6 +576,30 @@ func c07r4(c *Ctx) {
 			return nil, -1
 		}
 		switch x := v.(type) {
+		case *ssa.Parameter:
+			// a helper that is handed the looked-up classification (and its found flag): follow its only call site
+			callee := x.Parent()
+			idx := -1
+			for i, prm := range callee.Params {
+				if prm == x {
+					idx = i
+				}
+			}
+			var sites []ssa.CallInstruction
+			for _, g := range p.AllFuncs {
+				if funcPkgPath(g) != funcPkgPath(callee) {
+					continue
+				}
+				eachInstr(g, func(ins ssa.Instruction) {
+					if ci, ok := ins.(ssa.CallInstruction); ok && ci.Common().StaticCallee() == callee {
+						sites = append(sites, ci)
+					}
+				})
+			}
+			if len(sites) == 1 && idx >= 0 && idx < len(sites[0].Common().Args) {
+				return origin(sites[0].Common().Args[idx], depth+1)
+			}
+			return nil, -1
 		case *ssa.Extract:
 			if lk, ok := x.Tuple.(*ssa.Lookup); ok {
 				return lk, x.Index
@@ -675,6 +699,57 @@ func c07r4(c *Ctx) {
 			}
 			c.Check("exclusions of the "+name+" scope consulted:"+stableFnName(fn), fn.Pos(), lookups[w] != nil,
 				"this function consults ~ exclusions, but not those of the "+name+" scope: a host excluded there is still imported")
+		}
+		// a helper that decides one candidate: its imports are its non-nil results
+		inLoop := false
+		for _, l := range rangeLoops(fn) {
+			if l.Body == nil {
+				continue
+			}
+			for _, call := range calls {
+				if l.Body.Dominates(call.Block()) {
+					inLoop = true
+				}
+			}
+		}
+		if !inLoop {
+			eachInstr(fn, func(ins ssa.Instruction) {
+				r, ok := ins.(*ssa.Return)
+				if !ok || len(r.Results) == 0 {
+					return
+				}
+				rv := retVal(r, 0)
+				if k, ok := rv.(*ssa.Const); ok && k.IsNil() {
+					return
+				}
+				if _, isPtr := rv.Type().Underlying().(*types.Pointer); !isPtr {
+					return
+				}
+				for _, w := range []bool{false, true} {
+					if lookups[w] == nil {
+						continue
+					}
+					name := "namespace"
+					if w {
+						name = "wildcard"
+					}
+					// a phi result: every non-nil edge must come from a guarded block
+					okr := underEdges(fn, r.Block(), cut[w])
+					if ph, ok := rv.(*ssa.Phi); ok && !okr {
+						okr = true
+						for i, e := range ph.Edges {
+							if k, ok := e.(*ssa.Const); ok && k.IsNil() {
+								continue
+							}
+							if !underEdges(fn, ph.Block().Preds[i], cut[w]) {
+								okr = false
+							}
+						}
+					}
+					c.Check("import behind the "+name+"-scope exclusions:"+stableFnName(fn), r.Pos(), okr,
+						"a service / virtual service is imported (returned) on a path that has not consulted the ~ exclusions of the "+name+" scope: the proxy receives clusters, endpoints and routes for a host its Sidecar excludes")
+				}
+			})
 		}
 		// imports: appends inside a loop that contains an Excluded call
 		for _, l := range rangeLoops(fn) {
